@@ -190,6 +190,11 @@ static std::vector<double> pick(const std::vector<Val>& a, bool T) { std::vector
 struct Tol { ld pos, gfloor, krel; };
 // tolerance for convergence (degrees) and scale (relative): documented floor + the change caused by moving the point by the
 // position tolerance, |d log(dz/dw)| = |sin phi| |dw|, |dw| = ds/(nu cos phi)   (unbounded at the poles and at the branch point)
+// polar-ring tolerances (ground distance in metres for a = WGS84 a); calibrated on the unchanged tree, see the subcheck
+// clean-tree worst (20 parameter sets): series, |f| <= 0.01: 4.8 nm (round trips 2.8 nm); exact: round trips / central-meridian reverse 7.5 nm, against the oracle 9.0 nm;
+// series f = +-0.05: 9.4 um, f = 0.1: 1.5 mm (truncation of the 6th-order series)
+static ld POLAR_TOL_SERIES(const Par& P) { double f = std::fabs(P.f); return f <= 0.0100001 ? 10e-9L : f <= 0.0500001 ? 3.8e-5L : 6e-3L; }
+static ld POLAR_TOL_EXACT(const Par& P) { (void)P; return 12e-9L; }      // round trips and central-meridian reverse; comparisons with the oracle keep the documented 2 x 8 nm
 static ld cond(const Ora& R, ld Pr, ld tolpos) { return R.absS * 2 * tolpos / Pr; }
 
 int main(int argc, char** argv) {
@@ -610,6 +615,83 @@ int main(int argc, char** argv) {
           }
           ctx.sig((uint64_t)matched + 2 * (uint64_t)R.valid + 4 * (uint64_t)R.via_north);
           if (ctx.want_sample()) ctx.sample(where + " -> lat=" + fmt(la) + " lon=" + fmt(lo) + " gamma=" + fmt(g) + " k=" + fmt(k));
+        }
+      }
+    }
+  }
+  // ============================================================== subcheck: polar rings
+  // Rings from 100 m to 30 km around both poles (90 - {0.001 .. 0.3} deg), where Reverse goes through the large-tau branch of Math::tauf (asymptotic start value,
+  // early return above taumax).  Forward -> Reverse -> Forward in ground distance (a longitude error near the pole is harmless: it is weighted by nu cos(lat)),
+  // Reverse of the oracle image, and Reverse(0, k0 M(lat)) on the central meridian against the meridian-arc quadrature.  Tolerance: calibrated on the unchanged
+  // tree, <= 4 x worst observed and <= 12 nm (for a = WGS84 a) where the documented 2 x 5 nm / 2 x 8 nm would be looser.
+  {
+    const std::vector<double> COLAT = {0.001, 0.003, 0.01, 0.02, 0.03, 0.04, 0.05, 0.057, 0.06, 0.07, 0.1, 0.3};
+    const std::vector<double> RLON = {0, 1e-9, 3, 30, 45, 89, 90, 91, 135, 179, 180, -60, -120};
+    ctx.bound("polar-rings", "lat = +-(90 - {0.001, 0.003, 0.01, 0.02, 0.03, 0.04, 0.05, 0.057, 0.06, 0.07, 0.1, 0.3}) x dlon {0, 1e-9, 3, 30, 45, 89, 90, 91, 135, 179, 180, -60, -120} x lon0 {0, 177} x "
+              "all implementations (extendp: northern ring, dlon in [0, 90]) on WGS84/0.9996, (a=1, f=1/150, k0=2), f=0.01" + std::string(T ? " and the other 17 parameter sets" : ""));
+    for (int pi = 0; pi < NPAR; ++pi) {
+      const Par& P = PARS[pi];
+      const std::string pn = P.name;
+      if (!T && !(pn == "WGS84/0.9996" || pn == "f=1/150,a=1,k0=2" || pn == "f=+0.01")) continue;
+      Geo G(P);
+      std::vector<Impl> impls = make_impls(P);
+      const ld ascale = G.a / WGS84_A;
+      // calibrated tolerances (ground distance, metres for a = WGS84 a): series / exact
+      const ld tol_ser = POLAR_TOL_SERIES(P), tol_ex = POLAR_TOL_EXACT(P);
+      ctx.sub(std::string("polar-rings/") + P.name);
+      for (double cl : COLAT) for (int hs = 1; hs >= -1; hs -= 2) {
+        if (!ctx.take()) continue;
+        const double lat = hs * (90 - cl);
+        ld sphi, cphi; tm_ode::sincosd<ld>(lat, sphi, cphi);
+        { ld s2, c2; tm_ode::sincosd<ld>(hs * cl, s2, c2); cphi = fabsl(s2); }               // cos(lat) = sin(colatitude), exact argument
+        const ld Mr = G.Mrad(sphi), Pr = G.Prad(sphi, cphi);
+        const ld merid = tm_ode::meridian_distance<ld>(G.e2, (ld)lat * DEGL) * G.a * G.k0;
+        for (double lon0 : {0.0, 177.0}) for (double dnom : RLON) {
+          const double lon = lon0 + dnom, dlon = eff_dlon(lon0, lon);
+          Ora R = expect(G, lat, dlon, false, 10e-9L * ascale);
+          for (size_t ii = 0; ii < impls.size(); ++ii) {
+            const Impl& I = impls[ii];
+            if (I.extendp && !(hs > 0 && dlon >= 0 && dlon <= 90)) continue;
+            mc::Ctx::Case cs(ctx);
+            const ld tol = (I.series ? tol_ser : tol_ex) * ascale, tolo = (I.series ? tol_ser : std::max<ld>(tol_ex, 16e-9L)) * ascale;
+            const char* cls = I.series ? "series" : "exact";
+            auto W = [&]() { return std::string(P.name) + " " + I.name + " lat=" + fx(lat) + " lon0=" + fmt(lon0) + " lon=" + fx(lon); };
+            auto FAIL = [&](const char* kind, const std::string& msg) {
+              ctx.fail(W() + " " + kind, W() + ": " + msg, {{"kind", kind}, {"param", P.name}, {"impl", I.name}, {"lat", fmt(lat)}, {"dlon", fmt(dlon)}, {"lon0", fmt(lon0)}});
+            };
+            double x, y, g, k, la2, lo2, g2, k2, x2, y2, g3, k3;
+            I.fwd(lon0, lat, lon, x, y, g, k);
+            I.rev(lon0, x, y, la2, lo2, g2, k2);
+            I.fwd(lon0, la2, lo2, x2, y2, g3, k3);
+            if (!(std::isfinite(x) && std::isfinite(y) && std::isfinite(la2) && std::isfinite(lo2) && std::isfinite(x2) && std::isfinite(y2))) { FAIL("polar-nonfinite", "x=" + fmt(x) + " y=" + fmt(y) + " lat=" + fmt(la2) + " lon=" + fmt(lo2)); continue; }
+            // (a) geodetic round trip, ground distance
+            ld dN = ((ld)la2 - (ld)lat) * DEGL * Mr, dE = angdiff(angdiff((ld)lo2, (ld)lon0), (ld)dlon) * DEGL * Pr;
+            ld e1 = hypotl(dN, dE);
+            ctx.worstf(std::string("polar-rings.") + P.name + "." + cls + ".geodetic-roundtrip_nm(a=WGS84)", (double)(e1 / ascale * 1e9L), W);
+            if (!(e1 <= tol)) FAIL("polar-roundtrip", "Reverse(Forward) = lat " + fx(la2) + " lon " + fx(lo2) + ": " + mc::fmtl(e1) + " m on the ground > " + mc::fmtl(tol));
+            // plane round trip Forward(Reverse(Forward)), as ground distance
+            ld e2 = hypotl((ld)x2 - x, (ld)y2 - y) / (ld)k;
+            ctx.worstf(std::string("polar-rings.") + P.name + "." + cls + ".plane-roundtrip_nm(a=WGS84)", (double)(e2 / ascale * 1e9L), W);
+            if (!(e2 <= tol)) FAIL("polar-plane-roundtrip", "Forward(Reverse(Forward)) differs by " + mc::fmtl(e2) + " m (ground) > " + mc::fmtl(tol));
+            // Reverse of the oracle image
+            if (R.valid) {
+              double la4, lo4, g4, k4; I.rev(lon0, (double)R.x, (double)R.y, la4, lo4, g4, k4);
+              ld dN4 = ((ld)la4 - (ld)lat) * DEGL * Mr, dE4 = angdiff(angdiff((ld)lo4, (ld)lon0), (ld)dlon) * DEGL * Pr;
+              ld e4 = hypotl(dN4, dE4);
+              ctx.worstf(std::string("polar-rings.") + P.name + "." + cls + ".reverse-of-oracle_nm(a=WGS84)", (double)(e4 / ascale * 1e9L), W);
+              if (!(e4 <= tolo)) FAIL("polar-rev-oracle", "Reverse(oracle image) = lat " + fx(la4) + " lon " + fx(lo4) + ": " + mc::fmtl(e4) + " m on the ground > " + mc::fmtl(tolo));
+              ld e5 = hypotl((ld)x - R.x, (ld)y - R.y) / R.k;
+              ctx.worstf(std::string("polar-rings.") + P.name + "." + cls + ".forward-vs-oracle_nm(a=WGS84)", (double)(e5 / ascale * 1e9L), W);
+              if (!(e5 <= tolo)) FAIL("polar-fwd-oracle", "Forward differs from the oracle by " + mc::fmtl(e5) + " m (ground) > " + mc::fmtl(tolo));
+            }
+            // (b) central meridian: Reverse(lon0, 0, k0 M(lat)) against the meridian-arc quadrature
+            if (dlon == 0) {
+              double la5, lo5, g5, k5; I.rev(lon0, 0.0, (double)merid, la5, lo5, g5, k5);
+              ld e6 = hypotl(((ld)la5 - (ld)lat) * DEGL * Mr, angdiff((ld)lo5, (ld)lon0) * DEGL * Pr);
+              ctx.worstf(std::string("polar-rings.") + P.name + "." + cls + ".cm-reverse_nm(a=WGS84)", (double)(e6 / ascale * 1e9L), W);
+              if (!(e6 <= tol)) FAIL("polar-cm-reverse", "Reverse(0, k0 M(lat)) = lat " + fx(la5) + " lon " + fx(lo5) + ": " + mc::fmtl(e6) + " m on the ground > " + mc::fmtl(tol));
+            }
+          }
         }
       }
     }
